@@ -277,7 +277,24 @@ func (e *Exec) VerifyRefinement(implKey, ifaceKey string) (err error) {
 	for _, c := range iface.Requires {
 		e.Out.Assert(e.evalBool(c, envI))
 	}
+	var implReq []Clause
 	for _, c := range impl.Requires {
+		// conjuncts are judged one by one
+		var split func(x Expr)
+		split = func(x Expr) {
+			if b, ok := x.(EBinary); ok && b.Op == "&&" {
+				split(b.X)
+				split(b.Y)
+				return
+			}
+			d := c
+			d.E = x
+			d.Text = ExprString(x)
+			implReq = append(implReq, d)
+		}
+		split(c.E)
+	}
+	for _, c := range implReq {
 		onlyRecv := sig.Recv() != nil
 		for i, n := range implNames {
 			if i > 0 && mentions(c.E, n) {
